@@ -3,5 +3,5 @@ use super::dmlengine::{run_prop, Focus};
 use crate::Args;
 
 pub fn run(a: &Args) -> i32 {
-    run_prop(a, "C09", Focus::Constraints, "generated histories over 2-3 tables with PRIMARY KEY, UNIQUE, NOT NULL, CHECK (comparison / BETWEEN / OR forms) and FOREIGN KEY (RESTRICT or CASCADE) declarations; the model decides every write: a valid write must be accepted (valid_statement_accepted) and an invalid one rejected (invalid_statement_rejected), including updates of key columns, delete-then-reinsert of a key, parent deletes, NULL children and rollbacks in between. distinct_nontrivial = distinct histories with more than 8 executed statements")
+    run_prop(a, "C09", Focus::Constraints, "generated histories over 2-3 tables with PRIMARY KEY, UNIQUE, UNIQUE INDEX, NOT NULL, column CHECKs (col >= k, k <= col, AND/OR of comparisons, BETWEEN, <>, IN; negative literals) and FOREIGN KEYs to t0(id) (ON DELETE RESTRICT/CASCADE, optional ON UPDATE RESTRICT, nullable and NOT NULL children). Rows are generated valid by construction except where one chosen constraint is violated on purpose; the relational model decides every write on the state after the whole statement: a valid write must be accepted (valid_statement_accepted), an invalid one rejected (invalid_statement_rejected) - inserts, updates of key / unique / FK / checked columns (incl. SET id = id + 1), delete-then-reinsert of a key, parent deletes and parent key updates, NULL children, rollbacks in between. After every statement all declared constraints are re-evaluated on the state dumped from TurDB (state_satisfies_constraints). distinct_nontrivial = distinct histories with more than 8 executed statements")
 }
